@@ -105,6 +105,13 @@ UNARY = [
     ("pluck_list", dict(kind="pluck", lits=[1, 0], b1=True), ("t2",), _const("t2")),
     ("pluck_list1", dict(kind="pluck", lits=[1], b1=True), ("t2",), _const("tv")),      # a list pick of length one yields a 1-tuple
     ("pluck_list3", dict(kind="pluck", lits=[0, 1, 0], b1=True), ("t2",), _const("tv")),
+    # streamz/batch.py: the Batch collection over lists / tuples of ints ("lv": list of ints, "lp": list of pairs)
+    ("batch_map_inc", dict(kind="map", f="b_inc"), ("t2", "tv", "lv"), _const("lv")),
+    ("batch_map_pair", dict(kind="map", f="b_pair"), ("t2", "tv", "lv"), _const("lp")),
+    ("batch_filter_even", dict(kind="map", f="b_even"), ("t2", "tv", "lv"), _const("lv")),
+    ("batch_pluck_1", dict(kind="map", f="b_pl1"), ("lp",), _const("lv")),
+    ("batch_sum", dict(kind="accumulate", f="bsum", lits=[["i", 0]]), ("t2", "tv", "lv"), _const("i")),
+    ("batch_to_stream", dict(kind="flatten", f="batch"), ("lv", "t2", "tv"), _const("i")),
     ("collect", dict(kind="collect"), ANY, _part_out(3)),
     ("collect_max2", dict(kind="collect", m=2), ANY, _part_out(3)),
     ("union1", dict(kind="union"), ANY, _same),
@@ -115,6 +122,9 @@ UNARY = [
 _OPAQUE = {"map_id", "filter_true", "slice_all", "slice_1_none_2", "slice_0_2_1", "slice_1_3_1", "partition_1", "partition_2", "partition_3",
            "sliding_1", "sliding_2_partial", "sliding_2_full", "sliding_3_partial", "collect", "collect_max2", "union1", "stream"}
 UNARY = [(lab, kw, (acc + ("d",)) if lab in _OPAQUE else acc, out) for (lab, kw, acc, out) in UNARY]
+# lists of ints / of pairs pass through the nodes that do not look inside (and come apart in flatten)
+_LISTS = {"map_id", "filter_true", "slice_1_none_2", "partition_2", "sliding_2_partial", "collect", "union1", "stream", "flatten", "unique_list"}
+UNARY = [(lab, kw, (acc + ("lv", "lp")) if lab in _LISTS else acc, out) for (lab, kw, acc, out) in UNARY]
 UNARY_BY_LABEL = {u[0]: u for u in UNARY}
 
 
@@ -122,16 +132,19 @@ def chain(labels, sink_each=False):
     """source -> variants... -> sink ; returns program or None when ill-typed"""
     prog = [node("stream")]
     t = "i"
+    last = 1
     for lab in labels:
         _, kw, acc, outf = UNARY_BY_LABEL[lab]
         if t not in acc:
             return None
-        prog.append(node(ups=[len(prog)], **kw))
+        prog.append(node(ups=[last], **kw))
+        last = len(prog)
         t = outf(t)
         if sink_each:
-            prog.append(node("sink", f="ok", ups=[len(prog)]))
+            # (a sink next to the following transformer: every intermediate stream is observed)
+            prog.append(node("sink", f="ok", ups=[last]))
     if not sink_each:
-        prog.append(node("sink", f="ok", ups=[len(prog)]))
+        prog.append(node("sink", f="ok", ups=[last]))
     return prog
 
 
@@ -228,6 +241,16 @@ def templates():
          node("slice", n=0, m=-1, k=2, ups=[3]), node("map", f="inc", ups=[4]),
          node("filter", f="lt2", ups=[5])]; _sink(p, 4); _sink(p, 3)
     T.append(("feedback_slice", p))
+    # the Batch collection: chains of Batch operations behind a partition, and map_partitions over two collections
+    for labs in (["partition_2", "batch_map_inc", "batch_filter_even", "batch_sum"],
+                 ["partition_3", "batch_map_pair", "batch_pluck_1", "batch_to_stream"],
+                 ["sliding_2_partial", "batch_filter_even", "batch_map_inc", "flatten"],
+                 ["map_rep", "batch_map_inc", "batch_sum"]):
+        T.append(("batch:" + ">".join(labs), chain(labs, sink_each=True)))
+    p = [S(), S(), node("partition", n=2, ups=[1]), node("map", f="rep", ups=[2]),
+         node("zip", f="batch", ups=[3, 4]), node("starmap", f="cat", ups=[5])]; _sink(p, 6)
+    p.append(node("map", f="b_inc", ups=[6])); _sink(p, 8)
+    T.append(("batch_map_partitions2", p))
     # flatten / pluck behind joins
     p = [S(), S(), node("zip", ups=[1, 2]), node("flatten", ups=[3]), node("pluck", lits=[1, 0], b1=True, ups=[3])]
     _sink(p, 4); _sink(p, 5)
@@ -241,7 +264,7 @@ def catalogue(tier):
     core2 = ["map_inc", "filter_even", "acc_add", "slice_1_none_2", "slice_0_2_1", "partition_2",
              "partition_2_mod2", "punique_2_mod2_first", "punique_2_id_last", "sliding_2_partial",
              "sliding_2_full", "unique", "unique_max1", "unique_list_max1", "flatten", "map_pair",
-             "pluck_1", "pluck_list1", "frequencies", "remove_even", "concat", "scan_add", "collect", "collect_max2", "starmap_add2", "map_rep", "acc_add_ws"]
+             "pluck_1", "pluck_list1", "frequencies", "batch_map_inc", "batch_filter_even", "batch_sum", "batch_to_stream", "remove_even", "concat", "scan_add", "collect", "collect_max2", "starmap_add2", "map_rep", "acc_add_ws"]
     if tier == "quick":
         progs += [c for c in chains(2, core2) if c[0].count(">") == 1]
     else:
